@@ -3,6 +3,7 @@ package checks
 
 import (
 	"fmt"
+	"sort"
 	"strings"
 
 	"github.com/uhn/ggql/pkg/ggql"
@@ -112,19 +113,28 @@ func sdlBlocks(s string) map[string]string {
 func classifyChange(before, after *workload.Observation) string {
 	if before.SDL != after.SDL {
 		bb, ab := sdlBlocks(before.SDL), sdlBlocks(after.SDL)
-		for k, v := range ab {
-			if old, ok := bb[k]; ok && old != v {
+		keys := func(m map[string]string) []string {
+			ks := make([]string, 0, len(m))
+			for k := range m {
+				ks = append(ks, k)
+			}
+			sort.Strings(ks)
+			return ks
+		}
+		// deterministic choice (sorted), coarse class: the kind of change, not the kind of type
+		for _, k := range keys(ab) {
+			if old, ok := bb[k]; ok && old != ab[k] {
 				return "existing_type_changed:" + strings.Fields(k)[0]
 			}
 		}
-		for k := range ab {
+		for _, k := range keys(ab) {
 			if _, ok := bb[k]; !ok {
-				return "type_added:" + strings.Fields(k)[0]
+				return "type_added"
 			}
 		}
-		for k := range bb {
+		for _, k := range keys(bb) {
 			if _, ok := ab[k]; !ok {
-				return "type_removed:" + strings.Fields(k)[0]
+				return "type_removed"
 			}
 		}
 		return "sdl_changed"
